@@ -324,7 +324,19 @@ def module_spec(draw, in_project=True, depth=1, types=None, tname=None, dense=Fa
 
 NOTECMDS = list(range(0, 121)) + [128, 129, 130, 131, 132, 133, 134, 140]
 u16 = vs.edge_int(0, 0xFFFF)
-cell = st.tuples(st.sampled_from(NOTECMDS), vs.edge_int(0, 129), u16, u16, u16).map(list)
+full_cell = st.tuples(st.sampled_from(NOTECMDS), vs.edge_int(0, 129), u16, u16, u16).map(list)
+
+
+@st.composite
+def single_field_cell(draw):
+    """Tracker-style partial cell: exactly one column set."""
+    c = [0, 0, 0, 0, 0]
+    i = draw(st.integers(0, 4))
+    c[i] = draw([st.sampled_from(NOTECMDS[1:]), st.integers(1, 129), vs.edge_int(1, 0xFFFF), vs.edge_int(1, 0xFFFF), vs.edge_int(1, 0xFFFF)][i])
+    return c
+
+
+cell = st.one_of(full_cell, full_cell, single_field_cell())
 
 
 @st.composite
